@@ -93,6 +93,64 @@ def job(args):
     return out
 
 
+NEAR = 9e-6
+
+
+def seq_job(args):
+    """a sequence of gradient evaluations on ONE square-loss object at the generating parameters and at points a relative
+    9e-6 away (where the gradient is proportional to the displacement, so a value left over from the previous call is off
+    by 50-100%), then elsewhere and back"""
+    name, cols, seed = args
+    out = {"name": name, "viol": [], "runs": 0, "nontrivial": 0}
+    c = detmodels.CATALOGUE[name]
+    d = c["d"]
+    states, params = d["states"], d["params"]
+    if name not in _VR:
+        _VR[name] = varref.VarRef(d)
+    vr = _VR[name]
+    theta_gen, x0 = c["theta"][0], c["x0"][0]
+    t0 = 0.0
+    times = np.linspace(0.5, 3.0, 6)
+    y = observations(name, d, theta_gen, x0, t0, times, cols, "Square")
+    n, p = y.shape
+    yin = y[:, 0].copy() if p == 1 else y.copy()
+    idx = [states.index(cc) for cc in cols]
+    near = lambda k: [v * (1 + NEAR) ** k for v in theta_gen]
+    seq = [("sensitivity", theta_gen), ("sensitivity", near(1)), ("gradient", near(2)), ("sensitivity", near(3)), ("sensitivity", list(c["theta"][1])),
+           ("gradient", near(1)), ("sensitivity", theta_gen), ("sensitivity", near(-2))]
+    sig = {"loss": "Square", "entry": "sequence", "nstates": p}
+    try:
+        m, _ = build.build(d)
+        m.parameters = list(theta_gen)
+        obj = lossref.make_loss("Square", list(theta_gen), m, list(x0), t0, times, yin, cols if p > 1 else cols[0])
+    except Exception as e:
+        out["viol"].append((dict(sig, what="raised"), {"model": name, "state_name": cols, "error": "%s: %s" % (type(e).__name__, e)}))
+        return out
+    wants = []
+    for k, (entry, th) in enumerate(seq):
+        X, S, Z = vr.solve(th, x0, t0, times)
+        dL = lossref.dloss_dyhat("Square", y, X[:, idx], None, None)
+        wants.append(np.array([float(np.sum(dL * S[:, idx, j])) for j in range(len(params))]))
+    big = max(float(np.max(np.abs(w))) for w in wants[1:4])
+    for k, (entry, th) in enumerate(seq):
+        try:
+            got = np.asarray(obj.sensitivity(list(th)) if entry == "sensitivity" else obj.gradient(list(th)), float).ravel()
+        except Exception as e:
+            out["viol"].append((dict(sig, what="raised", step=entry), {"model": name, "state_name": cols, "step": k, "error": "%s: %s" % (type(e).__name__, e)}))
+            break
+        out["runs"] += 1
+        want = wants[k]
+        scale = max(float(np.max(np.abs(want))), 0.2 * big)
+        if got.shape != want.shape or not np.all(np.abs(got - want) <= 0.05 * scale + 1e-10):
+            out["viol"].append((dict(sig, what="value-in-sequence", step=entry),
+                                {"model": name, "state_name": cols, "step": k, "sequence": [(e_, list(t_)) for e_, t_ in seq[:k + 1]],
+                                 "got": got.tolist(), "want": want.tolist()}))
+            break
+        if k and float(np.max(np.abs(want - wants[k - 1]))) > 0.3 * scale:
+            out["nontrivial"] += 1
+    return out
+
+
 def main(argv=None):
     run = report.Run("C07", "exploration")
     env.load_pygom()
@@ -133,6 +191,11 @@ def main(argv=None):
         for i in range(0, len(cfgs), chunk):
             jobs.append((nme, cfgs[i:i + chunk], run.seed))
     res = pool.pmap(job, jobs, chunksize=1)
+    sjobs = [(nme, cols, run.seed) for nme in models for cols in ordered_subsets(detmodels.CATALOGUE[nme]["d"]["states"])[-3:]]
+    sres = pool.pmap(seq_job, sjobs, chunksize=1)
+    run.count("sequence-leg evaluations", sum(r["runs"] for r in sres))
+    run.count("sequence-leg steps that differ from the previous one by >30%", sum(r["nontrivial"] for r in sres))
+    res = res + sres
     runs = sum(r["runs"] for r in res)
     nt = sum(r["nontrivial"] for r in res)
     for r in res:
@@ -146,7 +209,8 @@ def main(argv=None):
                 "ordered subset) x target_state (every ordered subset) x {sensitivity, gradient, sensitivityIV} x methods {None, lsoda, vode, dopri5} x "
                 "full_output x grids {float, integer-typed with fractional t0}%s: the returned vector is compared (1e-5) with the derivative of the "
                 "*reference* cost: reference variational system (sympy, DOP853 1e-12) and the chain rule through independent loss derivatives, in "
-                "the order the free variables were supplied. non-trivial = reference gradient components pairwise differ by >1%%" % (
+                "the order the free variables were supplied. sequence leg: eight gradient evaluations on ONE square-loss object at the generating "
+                "parameters, at points a relative 9e-6 away, elsewhere and back (5%% tolerance; a left-over value is off by 50-100%%). non-trivial = reference gradient components pairwise differ by >1%%" % (
                     models, " (quick: every third configuration, selected by VERIF_SEED)" if quick else ""),
         "configurations": total,
     })
